@@ -215,6 +215,11 @@ bool is_number(jsoncons::string_view str)
                     state = is_number_state::decimal_digit;
                     ++i;
                 }
+                else if (c == 'e' || c == 'E')
+                {
+                    state = is_number_state::exponent;
+                    ++i;
+                }
                 else 
                 {
                     state = is_number_state::octal;
@@ -224,6 +229,11 @@ bool is_number(jsoncons::string_view str)
                 if (c == '.')
                 {
                     state = is_number_state::decimal_digit;
+                    ++i;
+                }
+                else if (c == 'e' || c == 'E')
+                {
+                    state = is_number_state::exponent;
                     ++i;
                 }
                 else
@@ -324,7 +334,7 @@ bool is_number(jsoncons::string_view str)
                 }
                 break;
             case is_number_state::exponent: 
-                if ((c >= '0' && c <= '9') || c == '-')
+                if ((c >= '0' && c <= '9') || c == '-' || c == '+')
                 {
                     state = is_number_state::digits;
                     ++i;
